@@ -167,4 +167,16 @@ theorem fact_identity_from_connection :
     Facts.identityWhoisArgs = ["r.Context()", "r.RemoteAddr"] := by
   decide
 
+/-- T1, `checkAndLog` asks the ACL about, and records, exactly what it was given: the ACL question
+is `(action, secret)` with the parameters as they came in, the audit entry carries the caller's
+principal, that action, that secret name, that version and the ACL's answer, and no parameter
+is reassigned on the way (the model's `checkAndLog` builds its entry from the same arguments). -/
+theorem fact_checkAndLog_uses_its_arguments :
+    Facts.checkAndLogParams = ["caller", "action", "secret", "secretVersion"] ∧
+    Facts.checkAndLogAllowArgs = ["action", "secret"] ∧
+    Facts.checkAndLogEntry = [("Principal", "caller.Principal"), ("Action", "action"), ("Secret", "secret"),
+      ("SecretVersion", "secretVersion"), ("Authorized", "authorized")] ∧
+    Facts.checkAndLogAssigned.all (fun a => !Facts.checkAndLogParams.contains a) = true := by
+  decide
+
 end Setec.C01
